@@ -3,7 +3,8 @@ SPECIFICATION TSpec
 CONSTANTS
   TraceFile = "trace.ndjson"
   Relax = {}
-  Clients = {"c1", "c2", "c3", "c6"}
+  RelaxFrom = 1
+  Clients = {"c1", "c2", "c3", "c6", "s1", "s2"}
   Users = {"u1", "u2"}
   PeerIPs = {"A", "B", "X"}
   PeerPorts = {1, 2}
